@@ -222,7 +222,9 @@ class ForLoopPulseTemplate(LoopPulseTemplate, MeasurementDefiner, ParameterConst
 
         for c in body_integrals:
             channel_integral_expr = sympy.Sum(body_integrals[c], (sum_index, sum_start, sum_stop))
-            body_integrals[c] = ExpressionScalar(channel_integral_expr)
+            # an empty range contributes nothing (same case distinction as in duration)
+            body_integrals[c] = ExpressionScalar(sympy.Piecewise((0, step_count <= 0),
+                                                                 (channel_integral_expr, True)))
 
         return body_integrals
 
